@@ -68,6 +68,8 @@ def _prose(r, o, form):
         return ""
     pool = PROSE_ASCII + (PROSE_MB if o.multibyte else [])
     t = r.choice(pool)
+    if form.kind == "block" and form.family != "md" and r.random() < 0.04:
+        t = t + " stray\rCR"       # a lone carriage return inside a block comment is a character, not a line break
     if o.long_prose and r.random() < 0.3:
         t = (t + " ") * (o.long_prose // (len(t) + 1) + 1)
     if o.foreign and r.random() < 0.4:
@@ -82,7 +84,7 @@ def render_for(form, alist):
         src, attrs = fbm.start_tag(alist, quote)
     except AssertionError:
         return None
-    probe = src.replace("\\(", "").replace("\\)", "") if form.id == "md-paren" else src    # escaped parentheses are legal in a (...) title
+    probe = src.replace("\\(", "").replace("\\)", "") if form.id.startswith("md-paren") else src    # escaped parentheses are legal in a (...) title
     if any(bad in probe for bad in form.forbid):
         return None
     if "\n" in src and form.kind == "line":
